@@ -284,6 +284,25 @@ Proof. unfold mprocess_ctor_raises, ctor_raises. rewrite <- (C01_gen_mprocess_is
 End Gate.
 End Tie.
 
+(* ---------------------------------------------------------------- quara/settings.py *)
+Section SettingsTie.
+Context (F : OF).
+(* after set_atol(x) with a float x, get_atol() returns x (and nothing else about the call is remembered); this is the [HSet] / [TSettings]
+   reading of Model/C01_History.v and Model/C01_Glue.v *)
+Theorem C01_gen_settings_set_then_get : forall (cls : clsstate F) (x : F) (a : pyarg F),
+  snd (eval_s gen_Settings_set_atol cls (PFloat x)) = RNone /\
+  eval_s gen_Settings_get_atol (fst (eval_s gen_Settings_set_atol cls (PFloat x))) a
+  = (fst (eval_s gen_Settings_set_atol cls (PFloat x)), RVal x).
+Proof. intros cls x a. split; [reflexivity|]. cbn. unfold upd. now rewrite ?String.eqb_refl. Qed.
+(* a non-float argument is rejected with TypeError and leaves the setting unchanged; reading never changes the setting *)
+Theorem C01_gen_settings_guard_and_purity : forall (cls : clsstate F) (a : pyarg F),
+  eval_s gen_Settings_set_atol cls POther = (cls, RTypeError) /\ fst (eval_s gen_Settings_get_atol cls a) = cls.
+Proof. intros cls a. split; reflexivity. Qed.
+(* the default global tolerance is the float literal 1e-13 *)
+Theorem C01_gen_settings_default : forall attr, gen_Settings_get_atol = SsRet attr -> In (attr, "1e-13") gen_Settings_class_attrs.
+Proof. intros attr E. injection E as <-. cbn. auto. Qed.
+End SettingsTie.
+
 Print Assumptions C01_gen_state_is_physical.
 Print Assumptions C01_gen_state_subverdicts.
 Print Assumptions C01_gen_state_ctor.
@@ -293,3 +312,6 @@ Print Assumptions C01_gen_gate_is_physical.
 Print Assumptions C01_gen_gate_ctor.
 Print Assumptions C01_gen_mprocess_is_physical.
 Print Assumptions C01_gen_mprocess_ctor.
+Print Assumptions C01_gen_settings_set_then_get.
+Print Assumptions C01_gen_settings_guard_and_purity.
+Print Assumptions C01_gen_settings_default.
